@@ -157,7 +157,30 @@ func c28(x *Ctx) {
 			}
 			// the field read may itself have been stored from a floored value in the same type (one level)
 			if !guarded {
-				if fr, _, ok := eng.LoadedField(eng.StripConv(div)); ok {
+				// min(v, K) / max(v, K) with K >= 1 is at least one whenever v is
+				coreDiv := eng.StripConv(div)
+				for i := 0; i < 4; i++ {
+					cl, isCall := coreDiv.(*ssa.Call)
+					if !isCall {
+						break
+					}
+					b, isB := cl.Call.Value.(*ssa.Builtin)
+					if !isB || (b.Name() != "min" && b.Name() != "max") {
+						break
+					}
+					var rest []ssa.Value
+					for _, a := range cl.Call.Args {
+						if k, ok := eng.ConstInt(a); ok && k >= 1 {
+							continue
+						}
+						rest = append(rest, a)
+					}
+					if len(rest) != 1 {
+						break
+					}
+					coreDiv = eng.StripConv(rest[0])
+				}
+				if fr, _, ok := eng.LoadedField(coreDiv); ok {
 					allFloored := true
 					n := 0
 					for _, w := range eng.FieldWrites(x.PkgFuncs(rel), func(g eng.FieldRef) bool { return g.Var == fr.Var }) {
